@@ -18,20 +18,35 @@ pub fn expand() -> Result<(), PathError> {
     let std_dir = std_dir();
 
     if !std_dir.exists() {
-        ignore_already_exists(fs::create_dir_all(&std_dir))?;
+        // Other processes only test the existence of `std/<hash>` and then read it without
+        // taking any lock, so it must either be absent or complete: populate a private
+        // directory under the lock of the parent and publish it with a single rename.
+        let base_dir = std_dir.parent().unwrap();
+        ignore_already_exists(fs::create_dir_all(base_dir))?;
 
-        let lock = veryl_path::lock_dir(&std_dir)?;
+        let lock = veryl_path::lock_dir(base_dir)?;
 
-        for file in Asset::iter() {
-            let content = Asset::get(file.as_ref()).unwrap();
-            let path = std_dir.join(file.as_ref());
-
-            let parent = path.parent().unwrap();
-            if !parent.exists() {
-                fs::create_dir_all(parent)?;
+        // Another process may have finished the expansion while we waited for the lock.
+        if !std_dir.exists() {
+            let partial_dir = base_dir.join(format!(".{STD_HASH}.partial"));
+            if partial_dir.exists() {
+                // Left over from an interrupted expansion.
+                fs::remove_dir_all(&partial_dir)?;
             }
 
-            fs::write(&path, content.data.as_ref())?;
+            for file in Asset::iter() {
+                let content = Asset::get(file.as_ref()).unwrap();
+                let path = partial_dir.join(file.as_ref());
+
+                let parent = path.parent().unwrap();
+                if !parent.exists() {
+                    fs::create_dir_all(parent)?;
+                }
+
+                fs::write(&path, content.data.as_ref())?;
+            }
+
+            fs::rename(&partial_dir, &std_dir)?;
         }
 
         veryl_path::unlock_dir(lock)?;
